@@ -228,6 +228,24 @@ pub fn run(ctx: &mut Ctx) {
         }
         must_be_literal(ctx, "size-probe:nested", &nested, &ds[2]);
     }
+    // the single exception is one level deep: direct elements of a literal collection of all / some /
+    // none are expressions, but an element that is itself an array or a multi-key object is a literal again
+    if ctx.mine() {
+        let inner: Vec<Value> = vec![
+            json!([{"log": "LEAK"}]), json!([[{"log": "LEAK"}]]), json!([{"var": "s"}]), json!([{"==": [1]}]), json!({"k": {"log": "LEAK"}, "j": 1}),
+            json!({"var": "s", "zz": {"log": "LEAK"}}), json!([1, [{"var": "a"}]]), json!([{"k": {"log": "LEAK"}}]),
+        ];
+        for el in &inner {
+            for k in ["all", "some", "none"] {
+                for coll in [json!([el]), json!([1, el]), json!([el, el])] {
+                    for pred in [json!(true), json!({"var": ""}), json!({"===": [{"var": "0"}, 7]}), json!({"===": [{"var": "0.var"}, "s"]}), json!({"log": {"var": ""}})] {
+                        ctx.edge();
+                        ctx.check("literal-collection:container-element", &op(k, vec![coll.clone(), pred.clone()]), &ds[2]);
+                    }
+                }
+            }
+        }
+    }
     // dispatch side, negative form: a single-key object keyed by an operator name is never
     // returned as a literal, whatever its operands are (wrong counts and shapes included)
     let v0 = al::v0();
